@@ -1,4 +1,5 @@
 """EBR-* rules over ebr_impl (DESIGN.md 4.5)."""
+import re
 from .facts import AnalysisError
 from .mir import Callee
 from .report import RuleResult
@@ -459,17 +460,22 @@ def rule_seal_fresh(ctx):
         seal = [(i, e) for i, e in enumerate(p.events) if e.kind == "call" and e.target == P + "Bag::seal"]
         take = [(i, e) for i, e in enumerate(p.events) if e.kind == "call" and e.ntarget in ("std::mem::replace", "std::mem::take")]
         push = [(i, e) for i, e in enumerate(p.events) if e.kind == "call" and norm(e.target or "") == "ebr_impl::sync::queue::Queue::push"]
-        if len(seal) != 1 or len(take) != 1 or len(push) != 1:
-            r.violate(PUSH_BAG, "shape", "expected one take of the bag, one seal and one push (found %d/%d/%d)" % (
-                len(take), len(seal), len(push)), b.loc(0))
+        # the bag is final when push_bag owns it: taken out of the caller's place here, or handed over by value
+        byval = [("arg", i, b.local_name(i)) for i in range(1, b.arg_count + 1) if b.local_ty(i).endswith("internal::Bag")
+                 and not b.local_ty(i).startswith("&")]
+        if len(seal) != 1 or len(push) != 1 or (len(take) != 1 and not (byval and not take)):
+            r.violate(PUSH_BAG, "shape", "expected one take of the bag (or a by-value bag), one seal and one push (found "
+                      "%d/%d/%d)" % (len(take), len(seal), len(push)), b.loc(0))
             continue
         ep = strip(seal[0][1].args[1])
         ld = None
         for (i, e, op, cell, base) in epoch_ops(p):
             if op == "load" and cell == "Global.epoch" and e.result == ep:
                 ld = i
-        ok = ld is not None and ld > take[0][0] and any(is_fence_seqcst(e) for e in p.events[take[0][0]:ld]) \
-            and strip(seal[0][1].args[0]) == take[0][1].result and strip(push[0][1].args[1]) == seal[0][1].result
+        t0 = take[0][0] if take else 0
+        owned = take[0][1].result if take else byval[0]
+        ok = ld is not None and ld >= t0 and any(is_fence_seqcst(e) for e in p.events[t0:ld]) \
+            and strip(seal[0][1].args[0]) == owned and strip(push[0][1].args[1]) == seal[0][1].result
         r.instance("seal(bag taken, global epoch loaded after take + fence)", ok)
         if not ok:
             r.violate(PUSH_BAG, "seal-epoch", "the bag is not sealed with a global epoch read after it was taken (and after a "
@@ -879,7 +885,10 @@ def rule_reactivate(ctx):
             continue   # unprotected guard: nothing to do
         fcall = [i for i, e in enumerate(p.events) if e.kind == "call" and "call_once" in (e.target or "") and
                  strip(e.args[0]) == ("arg", 2, ra.local_name(2))]
-        sg = [i for i, e in enumerate(p.events) if e.kind == "scopeguard_drop"]
+        # the re-pin runs from a scope guard, or from the Drop impl of an RAII witness a refactoring introduced
+        sg = [i for i, e in enumerate(p.events) if e.kind == "scopeguard_drop" or
+              (e.kind == "enter" and (e.target or "").endswith("as std::ops::Drop>::drop"))]
+        sg = [i for i in sg if not fcall or i > fcall[0]]
         s1 = _seq(p, [ACQ, UNPIN])
         ok = bool(fcall) and bool(sg) and s1 is not None and s1[1] < fcall[0] < sg[0]
         if ok:
@@ -906,6 +915,11 @@ def rule_reactivate(ctx):
                 if tt["k"] == "drop" and "ScopeGuard" in tt["ty"]:
                     okw = True
                     break
+                if tt["k"] == "drop":
+                    db = ctx.ex._new_drop_impl(tt["ty"])
+                    if db is not None and {PIN, P + "Local::release_handle"} <= {c.target for (_, _, c) in db.calls()}:
+                        okw = True      # an RAII witness whose Drop re-pins and releases the handle
+                        break
                 u = tt.get("target")
     r.instance("reactivate_after: the scope guard is dropped on the unwind edge of f()", okw)
     if not okw:
@@ -1470,6 +1484,15 @@ def outer_field(term):
     return None
 
 
+def _variant_indices(prog, body, names):
+    """indices of the named variants in the enum that `body` returns"""
+    rty = re.sub(r"<.*$", "", body.locals[0]["ty"])
+    for a in prog.items["adts"]:
+        if a["path"] == rty:
+            return {i for i, v in enumerate(a["variants"]) if v.get("name") in names}
+    return set()
+
+
 def rule_queue(ctx):
     r = RuleResult("EBR-QUEUE", ["C17", "C15"],
                    "pop_if: the head CAS is control dependent on the predicate holding for the very node it installs; data is "
@@ -1540,40 +1563,105 @@ def rule_queue(ctx):
                               "popped twice / node freed while reachable)", ce.loc())
             else:
                 raise AnalysisError("EBR-QUEUE: CAS outcome undecided in %s" % fname)
-    # push
+    # push: the node is linked by a CAS on a `next` pointer that expects null and installs the new node; what
+    # push_internal returns tells success from failure (whatever its type: bool, enum, Result); push returns only after a
+    # success and retries otherwise
     pi = prog.body(Q + "push_internal")
     r.functions.add(pi.name)
+    newp = [("arg", k, pi.local_name(k)) for k in range(1, pi.arg_count + 1)
+            if "RawShared" in pi.local_ty(k) and "Node" in pi.local_ty(k)]
+
+    def ret_key(rt, p=None):
+        rt = strip(rt)
+        if isinstance(rt, tuple) and rt[0] == "agg":
+            return ("variant", rt[2])
+        if isinstance(rt, tuple) and rt[0] == "c":
+            return ("const", rt[1])
+        if p is not None:
+            # a flag that the path has tested (`let ok = cas.is_ok(); if ok {..}; ok`)
+            for q in p.events:
+                if q.kind == "cond" and q.term == rt and isinstance(q.value, int):
+                    return ("const", q.value)
+        return None
+    okv, errv = set(), set()
     for p in ctx.ex.paths(pi):
         if p.exit[0] != "return":
             continue
-        link = [(i, e) for i, e in enumerate(p.events) if e.kind == "call" and
-                norm(e.target or "") == "ebr_impl::pointers::RawAtomic::compare_exchange" and outer_field(e.args[0]) == "Node.next"]
+        link = [(i_, e) for i_, e in enumerate(p.events) if e.kind == "call" and
+                norm(e.target or "") in ("ebr_impl::pointers::RawAtomic::compare_exchange",
+                                         "ebr_impl::pointers::RawAtomic::compare_exchange_weak")
+                and outer_field(e.args[0]) == "Node.next"]
         rb = p.ret
+        linked = None
         if link:
             li, le = link[0]
             exp_null = strip(le.args[1])
             ok = isinstance(exp_null, tuple) and exp_null[0] == "call" and norm(exp_null[1]) == "ebr_impl::pointers::RawShared::null" \
-                and strip(le.args[2]) == ("arg", 3, pi.local_name(3))
+                and strip(le.args[2]) in newp
             r.instance("push_internal links `new` with a CAS expecting null", ok)
             if not ok:
                 r.violate(pi.name, "link", "the new node is not linked by a CAS that expects a null next pointer", le.loc())
+            out = ctx.cas_outcome(p, le.result, li)
             isok = strip(rb)
-            okr = isinstance(isok, tuple) and isok[0] == "call" and norm(isok[1]) == "std::result::Result::is_ok" and \
-                strip(isok[2][0]) == le.result
-            if not okr:
+            if out is None and isinstance(isok, tuple) and isok[0] == "call" and \
+                    norm(isok[1]) == "std::result::Result::is_ok" and strip(isok[2][0]) == le.result:
+                # `return cas(..).is_ok()`: the result *is* the outcome
+                okv.add(("is_ok", None))
+                errv.add(("is_err", None))
+                continue
+            if out is None:
                 r.violate(pi.name, "result", "push_internal's result is not the outcome of the linking CAS", le.loc())
+                continue
+            linked = out == "ok"
         else:
-            ok = const_of(rb) == 0
-            if not ok:
-                r.violate(pi.name, "result", "push_internal reports success without linking the node", pi.loc(0))
+            linked = False
+        k = ret_key(rb, p)
+        if k is None:
+            r.violate(pi.name, "result", "push_internal's result is not the outcome of the linking CAS", pi.loc(0))
+            continue
+        (okv if linked else errv).add(k)
+    if okv & errv:
+        r.violate(pi.name, "result", "push_internal reports the same result (%s) with and without the node linked: push cannot "
+                  "tell whether to retry" % sorted(map(str, okv & errv)), pi.loc(0))
+    if not okv and not r.violations:
+        r.violate(pi.name, "result", "push_internal never reports success", pi.loc(0))
     pu = prog.body(Q + "push")
     for p in ctx.ex.paths(pu):
         calls = [e for e in p.events if e.kind == "call" and e.target == Q + "push_internal"]
+        if p.exit[0] not in ("return", "retry") or not calls:
+            continue
+        res = calls[-1].result
+        seen_k = None
+        for q in p.events[p.events.index(calls[-1]):]:
+            if q.kind != "cond":
+                continue
+            if q.term == res and isinstance(q.value, int):
+                seen_k = ("is_ok", None) if q.value == 1 else ("is_err", None)
+                if ("const", q.value) in okv | errv:
+                    seen_k = ("const", q.value)
+            elif q.term == ("disc", res):
+                seen_k = ("disc", q.value)
+        def in_set(k, S):
+            if k is None:
+                return False
+            if k[0] == "disc":
+                names = {v[1] for v in S if v[0] == "variant"}
+                idx = _variant_indices(prog, pi, names)
+                if isinstance(k[1], int):
+                    return k[1] in idx
+                return isinstance(k[1], tuple) and bool(idx) and not (idx & set(k[1][1])) and \
+                    not (_variant_indices(prog, pi, {v[1] for v in (okv | errv) - S if v[0] == "variant"}) - set(k[1][1]))
+            return k in S
         if p.exit[0] == "return":
-            ok = bool(calls) and any(q.kind == "cond" and q.term == calls[-1].result and q.value == 1 for q in p.events)
+            ok = in_set(seen_k, okv)
             r.instance("push returns only after push_internal succeeded", ok)
             if not ok:
                 r.violate(pu.name, "loop", "push returns although the node was not linked (element lost)", pu.loc(0))
+        else:
+            ok = in_set(seen_k, errv)
+            r.instance("push retries only after push_internal failed", ok)
+            if not ok:
+                r.violate(pu.name, "loop", "push retries although the node was linked (element pushed twice)", pu.loc(0))
     # the retry wrappers: an attempt that lost the race for the head (Err) says nothing about emptiness or the predicate;
     # `None` may be returned only as the Ok payload of the last attempt
     nw = 0
